@@ -36,6 +36,46 @@ SELF = ("param", "self")
 DEPTH = 6
 
 
+SHAPE = [("pos",)]
+
+
+def entry_parts(p, entry, prog):
+    """(future part, descriptor part) of a registered entry -- a 2-tuple or a two-field record -- and remember how
+    its parts are read back: by position (unpacking / index) or by field name"""
+    if isinstance(entry, tuple) and entry[0] == "tuple" and len(entry[1]) == 2:
+        SHAPE[0] = ("pos",)
+        return entry[1][0], entry[1][1]
+    if isinstance(entry, tuple) and entry[0] == "new":
+        rc = prog.classes.get(entry[1])
+        if rc is not None and rc.record_fields is not None and len(rc.record_fields) == 2:
+            f0, f1 = rc.record_fields
+            SHAPE[0] = ("rec", f0, f1)
+            return p.heap.get(("attr", entry, f0)), p.heap.get(("attr", entry, f1))
+    return None, None
+
+
+def is_desc_proj(x):
+    """x reads the descriptor part of an entry: unpack(E, 1) / E[1] / E.<descriptor field>; returns E or None"""
+    if not isinstance(x, tuple):
+        return None
+    if x[0] == "unpack" and x[2] == 1:
+        return x[1]
+    if x[0] == "sub" and x[2] == ("const", 1):
+        return x[1]
+    if x[0] == "attr" and SHAPE[0][0] == "rec" and x[2] == SHAPE[0][2]:
+        return x[1]
+    return None
+
+
+def _discover_shape(ctx, prog, dcb, pf, DF):
+    ps, it = ctx.paths(dcb, pf, depth=DEPTH, inline=std_inline)
+    for p in ps:
+        for e in p.calls():
+            if q.call_name(e) in ("append", "add") and isinstance(q.recv(e), tuple) and q.recv(e)[0] == "attr" and q.recv(e)[2] == DF and e.d["args"]:
+                entry_parts(p, e.d["args"][0], prog)
+                return
+
+
 def roles(ctx):
     prog = ctx.prog
     pex = prog.cls("PollExecutor")
@@ -61,6 +101,7 @@ def snapshot_rule(ctx, rep):
     pex, pf, li, dcb, own = roles(ctx)
     rep.rule("R-SNAPSHOT", "per poll: the argument of the poll function is derived from the registered entries read under the executor lock; the poll function runs outside that lock; on exception every descriptor of *that* argument gets yield_exception(<the caught exception>); the wait interval is the poll function's numeric result, else the default")
     DF = sorted(li.scanned)[0]
+    _discover_shape(ctx, ctx.prog, dcb, pf, DF)
     ps, it = ctx.paths(li.target, li.target.owner, depth=DEPTH, inline=std_inline, maxpaths=20000)
     X = li.exec_term
     XD = ("attr", X, DF)
@@ -76,10 +117,10 @@ def snapshot_rule(ctx, rep):
         src = None
         proj_ok = False
         if isinstance(argd, tuple) and argd[0] == "comp" and len(argd[2]) == 1:
-            proj_ok = isinstance(argd[2][0], tuple) and argd[2][0][0] == "unpack" and argd[2][0][2] == 1 and not argd[4]
+            proj_ok = is_desc_proj(argd[2][0]) is not None and not argd[4]
             src = argd[3][0] if len(argd[3]) == 1 else None
         elif isinstance(argd, tuple) and argd[0] == "list":
-            proj_ok = all(isinstance(x, tuple) and x[0] == "unpack" and x[2] == 1 and container_of(x) == XD for x in argd[1])
+            proj_ok = all(is_desc_proj(x) is not None and container_of(is_desc_proj(x)) == XD for x in argd[1])
             src = XD if proj_ok else None
         rep.ob("R-SNAPSHOT", "poll loop: the poll function receives the descriptor of every registered entry", src == XD and proj_ok, "poll_fn(%s)" % (fmt(argd) if argd is not None else None), where_of(u.fn, u.node), trace_of(p, u.seq))
         reads = [e for e in p.evs("loop") if e.d[0] == "enter" and e.d[1] == XD and e.seq < u.seq]
@@ -208,11 +249,12 @@ def check(ctx, rep):
             entry = a.d["args"][0] if a.d["args"] else None
             mk = [e for e in p.calls() if e.d["func"] == ("class", pd.key)]
             okd = False
-            if len(mk) == 1 and isinstance(entry, tuple) and entry[0] == "tuple" and len(entry[1]) == 2:
+            e_fut, e_desc = entry_parts(p, entry, prog)
+            if len(mk) == 1 and e_fut is not None:
                 b = bound(mk[0], prog)
                 desc = [k for k, t in p.types.items() if t == "C:" + pd.key]
                 r = b.get("result")
-                okd = entry[1][0] == SELF and entry[1][1] in desc and b.get("future") == SELF and isinstance(r, tuple) and r[0] == "call" and isinstance(r[1], tuple) and r[1][0] == "attr" and r[1][2] == "result" and r[1][1] in (D, ("attr", SELF, "_delegate"))
+                okd = e_fut == SELF and e_desc in desc and b.get("future") == SELF and isinstance(r, tuple) and r[0] == "call" and isinstance(r[1], tuple) and r[1][0] == "attr" and r[1][2] == "result" and r[1][1] in (D, ("attr", SELF, "_delegate"))
             rep.ob("R-REGISTER", "PollFuture: the entry is (this future, descriptor carrying the delegate's result)", okd, "appends %s" % (fmt(entry) if entry else None), where_of(a.fn, a.node), trace_of(p, a.seq))
             lk = any(l[1][0] == "attr" and it.type_of(l[1][1], p) == "C:" + pex.key for l in a.locks)
             rep.ob("R-GUARDED", "registration appends under the executor lock", lk, "", where_of(a.fn, a.node))
